@@ -406,6 +406,8 @@ class Repo:
         """The method `name` as class `c` sees it (own or inherited); a vanished anchor is an analysis error."""
         fi = self.lookup_method(c, name)
         if fi is None:
+            fi = self._moved(name)
+        if fi is None:
             raise AnalysisError(f"anchor {c.qual}.{name} not found (own or inherited)")
         return fi
 
@@ -451,8 +453,16 @@ class Repo:
         return list(out.values())
 
     # ------------------------------------------------------------------ anchors
+    def _moved(self, simple_name: str) -> FuncInfo | None:
+        """A function that is not where the tables expect it but exists exactly once under that name elsewhere (moved between
+        module level and a class, to a base class, or to another module): the same function, as far as the rules care."""
+        cands = [f for q, f in self.funcs.items() if f.name == simple_name and f.parent is None]
+        return cands[0] if len(cands) == 1 else None
+
     def func(self, qual: str) -> FuncInfo:
         fi = self.funcs.get(qual)
+        if fi is None and ".<" not in qual:
+            fi = self._moved(qual.rsplit(":", 1)[1].split(".")[-1])
         if fi is None:
             raise AnalysisError(f"anchor function {qual!r} not found in the current tree")
         return fi
@@ -465,6 +475,8 @@ class Repo:
 
     def method(self, cls_qual: str, name: str) -> FuncInfo:
         fi = self.lookup_method(self.cls(cls_qual), name)
+        if fi is None:
+            fi = self._moved(name)
         if fi is None:
             raise AnalysisError(f"anchor method {cls_qual}.{name} not found in the current tree")
         return fi
